@@ -288,6 +288,7 @@ class FnContract:
         models.this_module = mod
         eng = Engine(src, models, loops=self.loops, fnname=self.qual.split(':')[1], module=mod)
         eng.frame_violations = []
+        eng.fn_node = node
         eng.default_loop = self.default_loop
         if models.interface is not None and self.iface:
             models.interface.configure(**self.iface)
@@ -402,7 +403,13 @@ class FnContract:
                 texts.add('while ' + _ast.unparse(n_.test))
             elif isinstance(n_, _ast.For):
                 texts.add('for %s in %s' % (_ast.unparse(n_.target), _ast.unparse(n_.iter)))
-        res.loops_unused = [k for k in self.loops if k not in eng.loop_specs_used and k not in texts]
+        # ... or has a loop of the same kind at the same position (its text was edited: it is judged against the specification
+        # whenever a path reaches it)
+        static = sorted((x for x in _ast.walk(node) if isinstance(x, (_ast.For, _ast.While))), key=lambda x: (x.lineno, x.col_offset))
+        kinds = ['while' if isinstance(x, _ast.While) else 'for' for x in static]
+        keys = list(self.loops)
+        res.loops_unused = [k for i, k in enumerate(keys) if k not in eng.loop_specs_used and k not in texts
+                            and not (i < len(kinds) and isinstance(k, str) and k.split(' ')[0] == kinds[i])]
         return res
 
 
